@@ -72,7 +72,7 @@ def run_tlc(wd, module, cfg, workers=4, heap="2g", timeout=600, simulate=None, d
     vec_sink, a file object receiving one JSON document per line)."""
     meta = tempfile.mkdtemp(prefix="meta-", dir=wd)
     java = ["java", "-Xmx" + heap, "-Xss64m", "-XX:+UseParallelGC", "-XX:ParallelGCThreads=4"]
-    if fpset_small:
+    if fpset_small and not deque:
         java.append("-Dtlc2.tool.fp.FPSet.impl=tlc2.tool.fp.MSBDiskFPSet")
     if deque:
         java.append("-Dtlc2.tool.queue.IStateQueue=StateDeque")
